@@ -24,6 +24,10 @@ define_language! {
         Lam(Bind<AppliedId>) = "lam",
         App(AppliedId, AppliedId) = "app",
         Let(Bind<AppliedId>, AppliedId) = "let",
+        // binders that are not the first slot-carrying component of their node
+        LetRev(AppliedId, Bind<AppliedId>) = "letrev",
+        Pin(Slot, Bind<AppliedId>) = "pin",
+        Nest(Bind<Bind<AppliedId>>) = "nest",
         Add(AppliedId, AppliedId) = "add",
         Mul(AppliedId, AppliedId) = "mul",
         Sub(AppliedId, AppliedId) = "sub",
@@ -37,8 +41,46 @@ define_language! {
 type EG = EGraph<KL, ()>;
 struct Rng(u64);
 impl Rng { fn next(&mut self, n: u64) -> u64 { self.0 ^= self.0 << 13; self.0 ^= self.0 >> 7; self.0 ^= self.0 << 17; self.0 % n } }
+/// free slots of a term
+fn free_kl(t: &RecExpr<KL>, env: &mut Vec<Slot>, out: &mut Vec<Slot>) {
+    let mut under = |bs: &[Slot], c: &RecExpr<KL>, env: &mut Vec<Slot>, out: &mut Vec<Slot>| { for b in bs { env.push(*b); } free_kl(c, env, out); for _ in bs { env.pop(); } };
+    match &t.node {
+        KL::Var(s) => if !env.contains(s) && !out.contains(s) { out.push(*s); },
+        KL::Lam(b) => under(&[b.slot], &t.children[0], env, out),
+        KL::Let(b, _) => { under(&[b.slot], &t.children[0], env, out); free_kl(&t.children[1], env, out); }
+        KL::LetRev(_, b) => { free_kl(&t.children[0], env, out); under(&[b.slot], &t.children[1], env, out); }
+        KL::Pin(s, b) => { if !env.contains(s) && !out.contains(s) { out.push(*s); } under(&[b.slot], &t.children[0], env, out); }
+        KL::Nest(b) => under(&[b.slot, b.elem.slot], &t.children[0], env, out),
+        _ => for c in &t.children { free_kl(c, env, out); },
+    }
+}
+/// the crate's per-node rule (Language::check): a name bound by a node does not occur free in the same node outside the binder's scope
+fn well_formed_kl(t: &RecExpr<KL>) -> bool {
+    let fv = |c: &RecExpr<KL>| { let mut o = Vec::new(); free_kl(c, &mut Vec::new(), &mut o); o };
+    let ok = match &t.node {
+        KL::Let(b, _) => !fv(&t.children[1]).contains(&b.slot),
+        KL::LetRev(_, b) => !fv(&t.children[0]).contains(&b.slot),
+        KL::Pin(s, b) => *s != b.slot,
+        KL::Nest(b) => b.slot != b.elem.slot,
+        _ => true,
+    };
+    ok && t.children.iter().all(well_formed_kl)
+}
+/// a generated term that satisfies the rule (a few retries, then a plain variable)
 fn term(r: &mut Rng, depth: u32, ns: u64) -> String {
-    let v = |r: &mut Rng| format!("(var ${})", 1 + r.next(ns));
+    for _ in 0..8 { let t = term_raw(r, depth, ns); if well_formed_kl(&RecExpr::<KL>::parse(&t).unwrap()) { return t; } }
+    "(var $1)".to_string()
+}
+fn term_raw(r: &mut Rng, depth: u32, ns: u64) -> String {
+    let term = term_raw;
+    // $1..$3 are numeric names; shapes number their slots $0, $1, ..: a user's $1 can meet a shape-level $1
+    let v = |r: &mut Rng| format!("(var ${})", r.next(ns + 1));
+    if depth > 0 { match r.next(12) {
+        0 => return format!("(letrev {} ${} {})", term(r, depth - 1, ns), r.next(ns + 1), term(r, depth - 1, ns)),
+        1 => return format!("(pin ${} ${} {})", r.next(ns + 1), r.next(ns + 1), term(r, depth - 1, ns)),
+        2 => return format!("(nest ${} ${} {})", r.next(ns + 1), r.next(ns + 1), term(r, depth - 1, ns)),
+        _ => {}
+    } }
     if depth == 0 { return match r.next(5) { 0 => "zero".into(), 1 => "one".into(), _ => v(r) }; }
     match r.next(9) {
         0 => format!("(mul {} {})", term(r, depth - 1, ns), term(r, depth - 1, ns)),
@@ -94,6 +136,9 @@ fn alpha_variant(t: &RecExpr<KL>, counter: &mut u32) -> RecExpr<KL> {
             KL::Var(s) if *s == from => RecExpr { node: KL::Var(to), children: vec![] },
             // an inner binder of the same name shadows: its body is left alone (the other child of `let` is not)
             KL::Lam(b) if b.slot == from => t.clone(),
+            KL::LetRev(_, b) if b.slot == from => RecExpr { node: t.node.clone(), children: vec![rename(&t.children[0], from, to), t.children[1].clone()] },
+            KL::Pin(s, b) => { let s2 = if *s == from { to } else { *s }; let body = if b.slot == from { t.children[0].clone() } else { rename(&t.children[0], from, to) }; RecExpr { node: KL::Pin(s2, b.clone()), children: vec![body] } }
+            KL::Nest(b) if b.slot == from || b.elem.slot == from => t.clone(),
             KL::Let(b, _) if b.slot == from => RecExpr { node: t.node.clone(), children: vec![t.children[0].clone(), rename(&t.children[1], from, to)] },
             _ => RecExpr { node: t.node.clone(), children: t.children.iter().map(|c| rename(c, from, to)).collect() },
         }
@@ -111,7 +156,7 @@ fn child_permuted_variants(t: &RecExpr<KL>) -> Vec<(RecExpr<KL>, RecExpr<KL>, Re
     let mut out = Vec::new();
     let k = t.children.len();
     // binders are left alone: permuting below a binder node would have to move the bound slot too
-    if k >= 2 && k <= 4 && !matches!(t.node, KL::Lam(..) | KL::Let(..)) {
+    if k >= 2 && k <= 4 && !matches!(t.node, KL::Lam(..) | KL::Let(..) | KL::LetRev(..) | KL::Pin(..) | KL::Nest(..)) {
         for p in perms(k) {
             if (0..k).all(|i| p[i] == i) { continue; }
             let v = RecExpr { node: t.node.clone(), children: p.iter().map(|i| t.children[*i].clone()).collect() };
@@ -126,7 +171,7 @@ fn child_permuted_variants(t: &RecExpr<KL>) -> Vec<(RecExpr<KL>, RecExpr<KL>, Re
     }
     out
 }
-fn rename(t: &str) -> String { let mut s = t.to_string(); for k in (1..=9).rev() { s = s.replace(&format!("${})", k), &format!("$1{})", k)); s = s.replace(&format!("${} ", k), &format!("$1{} ", k)); } s }
+fn rename(t: &str) -> String { let mut s = t.to_string(); for k in (0..=9).rev() { s = s.replace(&format!("${})", k), &format!("$1{})", k)); s = s.replace(&format!("${} ", k), &format!("$1{} ", k)); } s }
 
 fn multi_pats() -> Vec<&'static str> {
     vec!["?x == (mul ?a ?b), ?b == zero", "?o == (add ?a ?b), ?b == (sub ?a ?a)", "?o == (f3 ?a ?b ?c), ?a == (var $1)", "?o == (app ?f ?t), ?f == (lam $1 ?b)",
